@@ -513,7 +513,7 @@ def configs_for(prop, tier):
                 ("tsan", "e1", ["--mode", "a", "--fault", "ta", "--maxthreads", mt], 5 * t, "c13_ta_tsan"),
                 ("asan", "e1", ["--mode", "a", "--fault", "stall", "--maxthreads", mt], 8 * t, "c13_stall_asan"),
                 ("asan", "e1", ["--mode", "a", "--fault", "starve", "--maxthreads", mt, "--maxviol", "1000000"], 5 * t, "c13_starve_asan"),
-                ("tsan", "e1", ["--mode", "a", "--fault", "none", "--maxthreads", mt, "--mix", "api", "--cold", "1"], 12 * t, "c13_cold_tsan"),
+                ("tsan", "e1", ["--mode", "a", "--fault", "none", "--maxthreads", mt, "--mix", "api", "--cold", "3"], 12 * t, "c13_cold_tsan"),
                 ("asan", "e1", ["--mode", "a", "--fault", "none", "--maxthreads", mt, "--mix", "api", "--cold", "2"], 5 * t, "c13_cold_asan"),
                 ("asan", "e1", ["--mode", "x", "--cold", "1"], 4 * t, "c13_exit_asan"),
                 ("tsan", "e2", ["--prop", "C13", "--two", "1"], 3 * t, "c13_two_setters_tsan"),
